@@ -15,7 +15,7 @@ from lib.tlc import RawTla
 from lib.ctx import REPO, MachineryFailure
 from checks.c12 import rec, fn, BASE
 
-CORNER = {"norad": {5, 25544, 99999}, "desig": {0, 1, 3}, "eyy": {73, 85, 99, 0, 8, 16}, "edoy": {1, 124, 300, 365},
+CORNER = {"norad": {5, 25544, 99999}, "desig": {0, 1, 3}, "eyy": {74, 85, 99, 0, 8, 16}, "edoy": {1, 124, 300, 365},
           "efrac": {0, 55610684, 99999999}, "ndsgn": {-1, 1}, "nd": {0, 1524, 30000}, "bssgn": {-1, 1}, "bsmant": {0, 11606, 30197, 99999},
           "bsesgn": {-1}, "bsexp": {2, 3, 4}, "incl": {1, 516421, 634000, 982000, 1440000, 1799000}, "raan": {0, 2362139, 3599999},
           "ecc": {0, 3381, 100000, 1000000, 6470982, 9000000}, "argp": {0, 478509, 2700000}, "ma": {0, 476767, 1800000},
@@ -26,7 +26,7 @@ def run(ctx):
     thorough = ctx.tier == "thorough"
     rnd = random.Random(ctx.seed)
     ctx.rule = ("TLC (Tle.tla) generates TLE texts for all pairs of corner values of the SGP4-relevant fields (inclinations 0..180, e 0..0.9, "
-                "mean motion 0.5..16.5 rev/day incl. deep space, +-B*, epochs 1973-2016); each TLE is propagated at dates within +-30 days "
+                "mean motion 0.5..16.5 rev/day incl. deep space, +-B*, epochs 1974-2016 - the shipped IERS tables start on 1973-01-02 and a query may be 30 days before the epoch); each TLE is propagated at dates within +-30 days "
                 "under the 6 date labels; every recorded wrapper trace is validated by Sgp4Plumbing.tla. Distinct/non-trivial = distinct TLEs")
     base = dict(BASE)
     base["eyy"] = 16          # epochs inside the IERS tables shipped with the repository
@@ -94,7 +94,8 @@ def run(ctx):
     # ---- law between the two code paths -----------------------------------------------------------------------------------
     ctx.clause("native Sgp4Beta agrees with the wrapped reference within 1 cm where the full near-Earth model applies", max(laws["checked"], 1), laws["failed"])
     ctx.extra["native_vs_reference"] = {"compared": laws["checked"], "worst_cm": laws["worst_cm"]}
-    for ex in laws["examples"][:5]:
+    ctx.extra["native_vs_reference"]["examples"] = sorted(laws["examples"], key=lambda e: -e.get("difference_cm", 1e9))[:40]
+    for ex in sorted(laws["examples"], key=lambda e: -e.get("difference_cm", 1e9))[:5]:
         ctx.violation("sgp4beta/differs", f"native model differs from the reference by {ex.get('difference_cm', ex.get('error'))} cm", ex)
     ctx.exhaustive = False
     ctx.assumptions += [
